@@ -13,11 +13,28 @@ INT_MAX = {"u8": 255, "i8": 127, "u16": 65535, "i16": 32767}
 NEED = 1326  # C(52,2): the largest range the property quantifies over
 
 
-def has_len(t):
+def _array_len(t):
+    """N when t is (a reference to) a fixed-size array `[T; N]` coerced to a slice, else None"""
+    import re
+    s = t
+    while s[0] in ("ref", "deref"):
+        s = s[1]
+    if s[0] == "cast" and len(s) >= 5:
+        m = re.match(r"&(?:mut )?\[.*; (\d+)\]$", s[3] or "")
+        if m:
+            return int(m.group(1))
+    return None
+
+
+def has_len(t, limit=None):
+    """does the term contain the length of a collection (other than a fixed-size array of at most `limit` elements)?"""
     for s in P.walk(t):
         if s[0] == "len":
             return True
         if s[0] == "call" and s[1].rsplit("::", 1)[-1] == "len":
+            n = _array_len(s[2][0]) if s[2] else None
+            if n is not None and limit is not None and n <= limit:
+                continue
             return True
         if s[0] == "un" and s[1] == "PtrMetadata":
             return True
@@ -58,7 +75,7 @@ def rule_narrow(ctx, M, prop="C08"):
                 if to not in INT_MAX or INT_MAX[to] >= NEED:
                     continue
                 t = pr.operand(s["rv"]["a"])
-                if has_len(t):
+                if has_len(t, INT_MAX[to]):
                     bad += 1
                     ctx.violation(rule, f"{fn.path}|len-as-{to}",
                                   f"a collection length ({P.show(t)[:120]}) is cast to {to} (max {INT_MAX[to]}): "
